@@ -423,6 +423,29 @@ class Sym:
             if len(deltas) != 1:
                 raise Unsupported("loop body appends a path-dependent number of bytes in %s" % f.id)
             delta = next(iter(deltas))
+            # `opt.iter().flatten()` / `opt.into_iter().flatten()` over an Option<collection>: nothing when None, the collection's
+            # items when Some - a case split on the option, like the `match` that spells the same loop
+            sc = strip_iter(src)
+            if isinstance(sc, tuple) and sc[0] == "call" and sc[1].split("::")[-1] == "flatten" and sc[2]:
+                inner = strip_iter(sc[2][0])
+                ity = None
+                try:
+                    ity = self.term_type(f, inner)
+                except Exception:
+                    ity = None
+                tys = ity if isinstance(ity, dict) else (self.prog.types[ity] if isinstance(ity, int) else None)
+                if tys is not None and tys.get("k") == "adt" and tys.get("path") == "std::option::Option":
+                    key = ("v", self.canon(inner))
+                    out = []
+                    cur = dict(assum)
+                    if cur.get(key, "None") == "None":
+                        c0 = dict(cur); c0[key] = "None"
+                        out.append((frozenset(c0.items()), count, store, none[0].target))
+                    if cur.get(key, "Some") == "Some":
+                        c1 = dict(cur); c1[key] = "Some"
+                        some_items = ("vfield", inner, "Some", "0")
+                        out.append((frozenset(c1.items()), count + self.times(some_items, item, delta), store, none[0].target))
+                    return out
             total = self.times(src, item, delta)
             return [(assum, count + total, store, none[0].target)]
         else:
